@@ -2389,7 +2389,10 @@ class GtkDocCommentBlockWriter(object):
             lines = []
 
             # Identifier part
-            if block.name.startswith('SECTION') or block.name.startswith('ACTION'):
+            if block.name.startswith('ACTION:') and block.name.count(':') >= 2:
+                # 'ACTION:Class:action.name' is the parser's name for a 'Class|action.name:' block
+                lines.append('%s|%s:' % tuple(block.name.split(':', 2)[1:]))
+            elif block.name.startswith('SECTION') or block.name.startswith('ACTION'):
                 lines.append(block.name)
             else:
                 if block.annotations:
